@@ -55,6 +55,18 @@ ConsRevSkip(rest, k) == Reverse(SubSeq(rest, 1, Len(rest) - k))
 ConsMin(rest)       == IF rest = <<>> THEN INone ELSE IItem(Head(rest))   \* lists are ascending
 ConsMax(rest)       == IF rest = <<>> THEN INone ELSE IItem(Last(rest))
 
+\* adaptors that ordinary code rarely combines with these iterators (what they yield on the plain list)
+ConsRevNth(rest, n)   == OpNthBack(rest, n)[1]                                   \* rev().nth(n)
+ConsFirst(rest)       == OpNext(rest)[1]                                         \* min_by_key with a constant key: the first
+ConsPartition(rest)   == SelectSeq([i \in 1..Len(rest) |-> <<i, rest[i]>>], LAMBDA p : p[1] % 2 = 1)
+                         \o SelectSeq([i \in 1..Len(rest) |-> <<i, rest[i]>>], LAMBDA p : p[1] % 2 = 0)   \* odd positions, then even ones
+ConsSkipLen(rest, n)  == IF n < Len(rest) THEN Len(rest) - n ELSE 0              \* skip(n).len()
+ConsTakeLen(rest, n)  == MinNat(n, Len(rest))                                    \* take(n).len()
+ConsStepByLen(rest, n) == LET k == IF n < 1 THEN 1 ELSE n IN (Len(rest) + k - 1) \div k
+\* position / rposition with a predicate that holds for the (n+1)-th item shown: the index from the FRONT, or none
+PosResult(len, n)  == IF n < len THEN n ELSE -1
+RPosResult(len, n) == IF n < len THEN len - 1 - n ELSE -1
+
 \* --- window representation (used by the trace specification for speed) -----
 \* Every reachable state is a contiguous window base[lo..hi] of the initial list.
 \* MC_IterAbs checks that the window machine and the sequence machine agree.
